@@ -402,7 +402,8 @@ func c10WithSet(c *Ctx, p *Prog, m *Model) {
 				continue
 			}
 			wrote[fs.Field] = true
-			if !allowed[fs.Field] {
+			if !allowed[fs.Field] && isSettingField(fs.Field) {
+				// a field that belongs to ANOTHER setting; private bookkeeping fields of the receiver are not a setting
 				probs = append(probs, "also writes "+fs.Field)
 			}
 		}
@@ -816,4 +817,16 @@ func c10Navigation(c *Ctx, p *Prog, m *Model) {
 		ok := kinds["self"] && kinds["rec"] && kinds["nil"] && !kinds["other"] && !kinds["self-unguarded"]
 		r.Check(ok, "R10.5", "Entry.findSublogger", p.FuncPos(fs), "returns the receiver on a name match, else a match in the subtree, else nil", fmt.Sprintf("findSublogger's results are %v", sortedKeys(kinds)))
 	}
+}
+
+// isSettingField: the field is one of the observable per-logger settings named in the setter table.
+func isSettingField(f string) bool {
+	for _, fs := range setterWriteSets {
+		for _, x := range fs {
+			if x == f {
+				return true
+			}
+		}
+	}
+	return f == "owner" || f == "items" || f == "name" || f == "handlerOpt"
 }
